@@ -125,4 +125,248 @@ theorem liftT_not_denied {α : Type} (s : St) (r : Tenant.State × Except Tenant
   | ok a => simp [hr] at h
   | error e' => simp [hr] at h; subst h; rfl
 
+/-! ### the generic shapes: a failed check touches nothing, a success passed the check -/
+
+/-- "denied calls leave the state alone" as a property of a result -/
+def DenSafe (s : St) (r : Res Nat) : Prop := ∀ e, r.2 = .error e → denied e = true → r.1 = s
+
+theorem guarded_den {g : Except Err Unit} {s : St} {k : Res Nat} (hk : DenSafe s k) : DenSafe s (guarded g s k) := by
+  unfold guarded
+  cases g with
+  | error e => exact fun _ _ _ => rfl
+  | ok u => exact hk
+
+theorem guarded_ok {g : Except Err Unit} {s : St} {k : Res Nat} {id : Nat}
+    (h : (guarded g s k).2 = .ok id) : g = .ok () ∧ k.2 = .ok id := by
+  unfold guarded at h
+  cases g with
+  | error e => simp at h
+  | ok u => exact ⟨rfl, h⟩
+
+theorem fetchGuard_den {β : Type} {fetch : Except Err β} {g : β → Except Err Unit} {s : St} {k : Res Nat}
+    (hk : DenSafe s k) : DenSafe s (fetchGuard fetch g s k) := by
+  unfold fetchGuard
+  cases fetch with
+  | error e => exact fun _ _ _ => rfl
+  | ok b => exact guarded_den hk
+
+theorem fetchGuard_ok {β : Type} {fetch : Except Err β} {g : β → Except Err Unit} {s : St} {k : Res Nat} {id : Nat}
+    (h : (fetchGuard fetch g s k).2 = .ok id) : ∃ b, fetch = .ok b ∧ g b = .ok () ∧ k.2 = .ok id := by
+  unfold fetchGuard at h
+  cases fetch with
+  | error e => simp at h
+  | ok b => exact ⟨b, rfl, guarded_ok h⟩
+
+theorem liftT_den (s : St) (r : Tenant.State × Except Tenant.Err Nat) : DenSafe s (liftT s r) := by
+  intro e h hd
+  rw [liftT_not_denied s r e h] at hd; cases hd
+
+theorem callOK_gb (c : Caller) (s : St) (id : Nat) : callOK c (.gb id) (wstep c s (.gb id)).2 = true := by
+  apply callOK_read; intro a h
+  unfold findBucketByID at h
+  split at h
+  · cases h
+  · split at h
+    · cases h
+    · rename_i hz; cases h; exact authorizeReadBucket_ok hz
+
+theorem findBucketByName_ok {c : Caller} {s : St} {o : Nat} {n : String} {a : Nat × BucketRec}
+    (h : findBucketByName c s o n = .ok a) : mayReadBucket c a.1 a.2.org a.2.sys = true := by
+  unfold findBucketByName at h
+  split at h
+  · cases h
+  · split at h
+    · cases h
+    · rename_i hz; cases h; exact authorizeReadBucket_ok hz
+
+theorem callOK_lb (c : Caller) (s : St) (o : Option Nat) : callOK c (.lb o) (wstep c s (.lb o)).2 = true := by
+  apply callOK_read; intro l h
+  unfold findBuckets at h
+  simp only at h
+  split at h
+  · cases h
+  · rename_i bs _
+    simp only [callOK, List.all_eq_true, List.mem_map, bk]
+    rintro ⟨i, og, sy⟩ ⟨e, he, heq⟩
+    simp only [Prod.mk.injEq] at heq
+    obtain ⟨rfl, rfl, rfl⟩ := heq
+    exact authorizeReadBucket_ok (filterAuthorized_sound _ bs l h e he).2
+
+theorem callOK_lo (c : Caller) (s : St) : callOK c .lo (wstep c s .lo).2 = true := by
+  apply callOK_read; intro l h
+  unfold findOrgs at h
+  split at h
+  · cases h
+  · simp only [callOK, List.all_eq_true, mayReadOrg]
+    intro o ho
+    exact authorize_ok (filterAuthorized_sound _ _ l h o ho).2
+
+theorem callOK_lu (c : Caller) (s : St) : callOK c .lu (wstep c s .lu).2 = true := by
+  apply callOK_read; intro l h
+  unfold findUsers at h
+  simp only [callOK, List.all_eq_true, mayReadUser]
+  intro o ho
+  exact authorize_ok (filterAuthorized_sound _ _ l h o ho).2
+
+theorem callOK_la (c : Caller) (s : St) : callOK c .la (wstep c s .la).2 = true := by
+  apply callOK_read; intro l h
+  unfold findAuths at h
+  simp only [callOK, List.all_eq_true, List.mem_map, au]
+  rintro ⟨i, og, us⟩ ⟨e, he, heq⟩
+  simp only [Prod.mk.injEq] at heq
+  obtain ⟨rfl, rfl, rfl⟩ := heq
+  exact authorizeReadAuth_ok (filterAuthorized_sound _ _ l h e he).2
+
+
+theorem getBucket_pre {s : St} {id : Nat} {b : BucketRec} (h : getBucket s id = .ok b) :
+    preBucket s id = some (b.org, 0) := by
+  unfold getBucket at h
+  split at h
+  · cases h
+  · split at h
+    · cases h
+    · rename_i hb; cases h; simp [preBucket, hb]
+
+theorem getAuth_pre {s : St} {id : Nat} {a : AuthRec} (h : getAuth s id = .ok a) :
+    preAuth s id = some (a.org, a.user) := by
+  unfold getAuth at h
+  split at h
+  · cases h
+  · split at h
+    · cases h
+    · rename_i hb; cases h; simp [preAuth, hb]
+
+theorem svc_not_denied_create (s : St) (a : AuthRec) (e : Err) (h : (createAuthSvc s a).2 = .error e) :
+    denied e = false := by
+  unfold createAuthSvc at h
+  repeat' split at h
+  all_goals first
+    | (simp at h; subst h; rfl)
+    | (simp at h; done)
+    | skip
+  all_goals (cases hg : (genAuthID (KV.has s.auths) 100 s.nextAuth).1 <;> simp [hg] at h)
+
+theorem svc_not_denied_update (s : St) (id : Nat) (act : Bool) (e : Err) (h : (updateAuthSvc s id act).2 = .error e) :
+    denied e = false := by
+  unfold updateAuthSvc at h
+  split at h
+  · simp at h; subst h; rfl
+  · simp at h
+
+theorem getAuth_err_not_denied {s : St} {id : Nat} {e : Err} (h : getAuth s id = .error e) : denied e = false := by
+  unfold getAuth at h
+  repeat' split at h
+  all_goals first
+    | (simp at h; subst h; rfl)
+    | (simp at h; done)
+
+theorem svc_not_denied_delete (s : St) (id : Nat) (e : Err) (h : (deleteAuthSvc s id).2 = .error e) :
+    denied e = false := by
+  unfold deleteAuthSvc at h
+  split at h
+  · rename_i e' he; simp at h; subst h; exact getAuth_err_not_denied he
+  · simp at h
+
+
+theorem createAuthSvc_den (s : St) (a : AuthRec) : DenSafe s (createAuthSvc s a) :=
+  fun e h hd => by rw [svc_not_denied_create s a e h] at hd; cases hd
+theorem updateAuthSvc_den (s : St) (id : Nat) (act : Bool) : DenSafe s (updateAuthSvc s id act) :=
+  fun e h hd => by rw [svc_not_denied_update s id act e h] at hd; cases hd
+theorem deleteAuthSvc_den (s : St) (id : Nat) : DenSafe s (deleteAuthSvc s id) :=
+  fun e h hd => by rw [svc_not_denied_delete s id e h] at hd; cases hd
+
+/-- **every wrapped call satisfies the statement** -/
+theorem callOK_wstep (c : Caller) (s : St) (op : WOp) : callOK c op (wstep c s op).2 = true := by
+  cases op with
+  | gb id => exact callOK_gb c s id
+  | fb o n => apply callOK_read; intro a h; exact findBucketByName_ok h
+  | fB o n => apply callOK_read; intro a h; exact findBucketByName_ok h
+  | lb o => exact callOK_lb c s o
+  | cb o n sys =>
+    exact callOK_mut c _ s _ _ (guarded_den (liftT_den s _)) (fun id h => authorize_ok (guarded_ok h).1)
+  | ub id n =>
+    refine callOK_mut c _ s (updateBucket c s id n) _ (fetchGuard_den (liftT_den s _)) (fun i h => ?_)
+    obtain ⟨b, hb, hg, _⟩ := fetchGuard_ok h
+    rw [getBucket_pre hb]; exact authorize_ok hg
+  | db id =>
+    refine callOK_mut c _ s (deleteBucket c s id) _ (fetchGuard_den (liftT_den s _)) (fun i h => ?_)
+    obtain ⟨b, hb, hg, _⟩ := fetchGuard_ok h
+    rw [getBucket_pre hb]; exact authorize_ok hg
+  | gO id =>
+    apply callOK_read; intro a h
+    unfold findOrgByID at h
+    split at h
+    · cases h
+    · rename_i hz
+      cases hg : getOrg s id with
+      | error e => rw [hg] at h; cases h
+      | ok n => rw [hg] at h; cases h; exact authorize_ok hz
+  | fo n =>
+    apply callOK_read; intro a h
+    unfold findOrgByName at h
+    split at h
+    · cases h
+    · split at h
+      · cases h
+      · rename_i hz; cases h; exact authorize_ok hz
+  | lo => exact callOK_lo c s
+  | co n => exact callOK_mut c _ s _ _ (guarded_den (liftT_den s _)) (fun id h => authorize_ok (guarded_ok h).1)
+  | uo id n => exact callOK_mut c _ s _ _ (guarded_den (liftT_den s _)) (fun i h => authorize_ok (guarded_ok h).1)
+  | dO id => exact callOK_mut c _ s _ _ (guarded_den (liftT_den s _)) (fun i h => authorize_ok (guarded_ok h).1)
+  | gu id =>
+    apply callOK_read; intro a h
+    unfold findUserByID at h
+    split at h
+    · cases h
+    · rename_i hz
+      split at h
+      · cases h
+      · cases h; exact authorize_ok hz
+  | fu n =>
+    apply callOK_read; intro a h
+    unfold findUserByName at h
+    split at h
+    · cases h
+    · split at h
+      · cases h
+      · rename_i hz; cases h; exact authorize_ok hz
+  | lu => exact callOK_lu c s
+  | cu n id => exact callOK_mut c _ s _ _ (guarded_den (liftT_den s _)) (fun i h => authorize_ok (guarded_ok h).1)
+  | uu id n => exact callOK_mut c _ s _ _ (guarded_den (liftT_den s _)) (fun i h => authorize_ok (guarded_ok h).1)
+  | du id => exact callOK_mut c _ s _ _ (guarded_den (liftT_den s _)) (fun i h => authorize_ok (guarded_ok h).1)
+  | pu id => simp [wstep, callOK, denied]
+  | ga id =>
+    apply callOK_read; intro a h
+    unfold findAuthByID at h
+    split at h
+    · cases h
+    · split at h
+      · cases h
+      · rename_i hz; cases h; exact authorizeReadAuth_ok hz
+  | ft t =>
+    apply callOK_read; intro a h
+    unfold findAuthByToken at h
+    split at h
+    · cases h
+    · split at h
+      · cases h
+      · rename_i hz; cases h; exact authorizeReadAuth_ok hz
+  | la => exact callOK_la c s
+  | ca a =>
+    refine callOK_mut c _ s (createAuth c s a) _
+      (guarded_den (guarded_den (guarded_den (createAuthSvc_den s a)))) (fun i h => ?_)
+    obtain ⟨h1, h⟩ := guarded_ok h
+    obtain ⟨h2, h⟩ := guarded_ok h
+    obtain ⟨h3, _⟩ := guarded_ok h
+    simp only [callOK, Bool.and_eq_true]
+    exact ⟨⟨authorize_ok h1, authorize_ok h2⟩, verifyPermissions_ok h3⟩
+  | ua id act =>
+    refine callOK_mut c _ s (updateAuth c s id act) _ (fetchGuard_den (updateAuthSvc_den s id act)) (fun i h => ?_)
+    obtain ⟨a, ha, hg, _⟩ := fetchGuard_ok h
+    rw [getAuth_pre ha]; exact authorizeWriteAuth_ok hg
+  | da id =>
+    refine callOK_mut c _ s (deleteAuth c s id) _ (fetchGuard_den (deleteAuthSvc_den s id)) (fun i h => ?_)
+    obtain ⟨a, ha, hg, _⟩ := fetchGuard_ok h
+    rw [getAuth_pre ha]; exact authorizeWriteAuth_ok hg
+
 end Influx.Authzr
